@@ -52,6 +52,13 @@ pub fn eval(ctx: &Ctx, c: &ServerCase) -> Verdict {
                     if let LineClass::MustReject(why) = &e.line {
                         if r.status < 400 { problems.push((format!("unparseable-request-answered-{}xx", r.status / 100), format!("pre-parser: {}; {}", why, describe(&e)))); }
                     }
+                    // a multipart form that is well formed except for a part whose Content-Disposition is not a form-data disposition cannot be parsed as a form
+                    if c.app == AppKind::Real && !c.legacy && e.bytes.len() <= e.bufsize {
+                        if let Some(why) = multipart_form_must_reject(&e.bytes) {
+                            classes.push("multipart-form-with-an-unusable-disposition");
+                            if r.status < 400 { problems.push((format!("unparseable-form-answered-{}xx", r.status / 100), format!("pre-parser: {}; {}", why, describe(&e)))); }
+                        }
+                    }
                     if c.app == AppKind::ReturnsErr && !c.legacy && r.status < 400 { problems.push(("handler-error-answered-without-error-status".into(), describe(&e))); }
                     classes.push(match r.status { 200 => "status-200", 204 => "status-204", 206 => "status-206", 400 => "status-400", 404 => "status-404", 416 => "status-416", 500 => "status-500", _ => "status-other" });
                 }
@@ -66,6 +73,34 @@ pub fn eval(ctx: &Ctx, c: &ServerCase) -> Verdict {
     if e.bytes.iter().filter(|b| **b == b'\n').count() > 200 { classes.push("more-than-200-lines"); }
     let nontrivial = hostile(c) && !matches!(e.line, LineClass::MustReject(_));
     ctx.judge(problems, nontrivial, classes)
+}
+
+/// Sound and deliberately narrow: Some(reason) only for a POST to the multipart echo endpoint whose framing is exactly what a browser sends (boundary XB,
+/// CRLF line ends, closing delimiter) and in which some part's only Content-Disposition names a type other than form-data / attachment / inline, or is
+/// form-data without a name parameter (RFC 7578 section 4.2 requires it). Anything else: None (no demand).
+pub fn multipart_form_must_reject(bytes: &[u8]) -> Option<&'static str> {
+    let text = std::str::from_utf8(bytes).ok()?;
+    let (head, body) = text.split_once("\r\n\r\n")?;
+    let mut lines = head.split("\r\n");
+    if lines.next()? != "POST /form-multipart-enctype-post-method HTTP/1.1" { return None; }
+    let mut ct = 0;
+    for l in lines { let (n, v) = l.split_once(": ")?; if n.eq_ignore_ascii_case("content-type") { if v != "multipart/form-data; boundary=XB" { return None; } ct += 1; } else if n.eq_ignore_ascii_case("content-length") { if v.parse::<usize>().ok()? != body.len() { return None; } } }
+    if ct != 1 { return None; }
+    let inner = body.strip_prefix("--XB\r\n")?;
+    let inner = inner.strip_suffix("\r\n--XB--\r\n").or_else(|| inner.strip_suffix("\r\n--XB--"))?;
+    let mut verdict = None;
+    for part in inner.split("\r\n--XB\r\n") {
+        let (phead, pbody) = part.split_once("\r\n\r\n")?;
+        if pbody.contains("--XB") { return None; }
+        let mut disp: Vec<&str> = vec![];
+        for l in phead.split("\r\n") { let (n, v) = l.split_once(": ")?; if !n.bytes().all(|b| b.is_ascii_alphanumeric() || b == b'-') { return None; } if n.eq_ignore_ascii_case("content-disposition") { disp.push(v); } }
+        if disp.len() != 1 { return None; }
+        let ty = disp[0].split(';').next().unwrap_or("").trim().to_ascii_lowercase();
+        if !ty.bytes().all(|b| b.is_ascii_alphanumeric() || b == b'-') || ty.is_empty() { return None; }
+        if !matches!(ty.as_str(), "form-data" | "attachment" | "inline") { verdict = Some("a part's Content-Disposition names a type that is not form-data"); }
+        else if ty == "form-data" && !disp[0].to_ascii_lowercase().contains("name=") { verdict = Some("a form-data part without a name parameter"); }
+    }
+    verdict
 }
 
 /// Raw client bytes (corpus files, fuzzer inputs): no panic, exactly one parseable response, error status where the pre-parser demands it.
